@@ -26,6 +26,8 @@ var overlayDirs = map[string]string{
 	"mhub2":  "module/x/mhub2",
 	"oracle": "module/x/oracle/keeper",
 	"oraclemod": "module/x/oracle",
+	"conncommand": "minter-connector/command",
+	"connminter": "minter-connector/minter",
 	"otypes": "module/x/oracle/types",
 }
 
@@ -53,7 +55,34 @@ type Loaded struct {
 	byID map[string]*ssa.Package
 }
 
+// syntheticModule creates the scratch main module through which the connector packages are loaded
+// (minter-connector's own go.mod points at a directory that does not exist).
+func syntheticModule() (string, error) {
+	dir, err := os.MkdirTemp("", "gosym-conn-")
+	if err != nil {
+		return "", err
+	}
+	for _, f := range []string{"go.mod", "go.sum", "main.go"} {
+		data, err := os.ReadFile(filepath.Join(verifRoot, "harness", "connector", f+".tmpl"))
+		if err != nil {
+			return "", err
+		}
+		if err := os.WriteFile(filepath.Join(dir, f), data, 0o644); err != nil {
+			return "", err
+		}
+	}
+	return dir, nil
+}
+
 func loadProgram(dir string, patterns []string) (*Loaded, error) {
+	if dir == "synthetic" {
+		d, err := syntheticModule()
+		if err != nil {
+			return nil, err
+		}
+		defer os.RemoveAll(d)
+		dir = d
+	}
 	ov, _ := buildOverlay()
 	cfg := &packages.Config{
 		Mode:    packages.LoadAllSyntax,
